@@ -72,6 +72,7 @@ class Engine(EngineBase, ExprMixin, CompMixin, CallMixin, FuncMixin, StmtMixin):
         self.cur_raises = dict(con.raises)
         self.opaque_raise = con.opaque_raise
         self.cur_type_map = dict(con.type_map)
+        self.cur_locals = dict(con.locals)
         self.fp_mode = bool(getattr(con, "fp", False) or getattr(con, "note", "") == "fp")   # floats as IEEE doubles
         self._cm_at_yield = list(con.at_yield)
         self.obligations = []
